@@ -38,23 +38,39 @@ func checkC11(w *World, r *Report) {
 	// the flag store and the purge may sit in helpers of the shutdown function: they are then
 	// represented by the helper's call in the shutdown function (liftTo), and the helper itself
 	// must not release the lock
-	var flagStore ssa.Instruction
+	var flagStoreRaw, purgeRaw ssa.Instruction
 	region := append([]*ssa.Function{sd}, ro.helpersOf(sd)...)
-	helperUnlocks := false
 	for _, f := range region {
-		for _, st := range ro.storesTo(f, "PipelineRunner.isShuttingDown", func(s *ssa.Store) bool { return isBoolConst(s.Val, true) }) {
-			flagStore = ro.liftTo(sd, st)
+		for _, st := range ro.storesTo(f, "PipelineRunner.isShuttingDown", func(s *ssa.Store) bool { return isTruthyConst(s.Val) }) {
+			flagStoreRaw = st
 		}
-	}
-	var purge ssa.Instruction
-	for _, f := range region {
 		allInstrs(f, func(in ssa.Instruction) {
 			if c, ok := in.(*ssa.Call); ok {
 				if b, ok := c.Call.Value.(*ssa.Builtin); ok && b.Name() == "delete" && ro.isWaitListMap(c.Call.Args[0]) {
-					purge = ro.liftTo(sd, in)
+					purgeRaw = in
 				}
 			}
-			if f != sd && (isCall(in, "RWMutex).Unlock") || isCall(in, "RWMutex).Lock")) {
+		})
+	}
+	// the gate function: the shutdown function itself, or the one helper of it that holds both the flag
+	// store and the purge together with its own lock region; other helpers are represented by their call
+	gate := sd
+	if flagStoreRaw != nil && purgeRaw != nil && flagStoreRaw.Parent() == purgeRaw.Parent() && flagStoreRaw.Parent() != sd {
+		locksItself := false
+		allInstrs(flagStoreRaw.Parent(), func(in ssa.Instruction) {
+			if isCall(in, "RWMutex).Lock") {
+				locksItself = true
+			}
+		})
+		if locksItself {
+			gate = flagStoreRaw.Parent()
+		}
+	}
+	flagStore, purge := ro.liftTo(gate, flagStoreRaw), ro.liftTo(gate, purgeRaw)
+	helperUnlocks := false
+	for _, f := range append([]*ssa.Function{gate}, ro.helpersOf(gate)...) {
+		allInstrs(f, func(in ssa.Instruction) {
+			if f != gate && (isCall(in, "RWMutex).Unlock") || isCall(in, "RWMutex).Lock")) {
 				helperUnlocks = true
 			}
 		})
@@ -72,22 +88,42 @@ func checkC11(w *World, r *Report) {
 		r.Viol("gate.region", sname+": flag and purge", w.Pos(sd.Pos()), fmt.Sprintf("shutdown does not set the flag (%v) and purge the wait lists (%v)", flagStore != nil, purge != nil))
 	} else {
 		// no unlock between the flag store and the purge loop's end; no wait point reachable from entry before the purge region was left
-		unlockBetween := PathQuery{Fn: sd, Start: []ssa.Instruction{flagStore}, Target: func(x ssa.Instruction) bool { return x == purge },
+		unlockBetween := PathQuery{Fn: gate, Start: []ssa.Instruction{flagStore}, Target: func(x ssa.Instruction) bool { return x == purge },
 			BlockInstr: func(x ssa.Instruction) bool { return isCall(x, "RWMutex).Unlock") }}.Find()
 		// state at the flag store is W: a Lock dominates it without Unlock in between
 		var lock ssa.Instruction
-		allInstrs(sd, func(x ssa.Instruction) {
+		allInstrs(gate, func(x ssa.Instruction) {
 			if isCall(x, "RWMutex).Lock") && instrDominates(x, flagStore) {
 				lock = x
 			}
 		})
-		waitBefore := PathQuery{Fn: sd, Target: isWaitPoint, BlockInstr: func(x ssa.Instruction) bool { return x == flagStore }}.Find()
-		// every listed job is marked canceled in the purge loop
+		// no wait point before the gate: in the gate function up to the flag store, and in the shutdown
+		// function up to the call of the gate function
+		waitBefore := PathQuery{Fn: gate, Target: isWaitPoint, BlockInstr: func(x ssa.Instruction) bool { return x == flagStore }}.Find()
+		if gate != sd && !waitBefore.Found {
+			if at := ro.liftTo(sd, flagStoreRaw); at != nil {
+				waitBefore = PathQuery{Fn: sd, Target: isWaitPoint, BlockInstr: func(x ssa.Instruction) bool { return x == at }}.Find()
+			} else {
+				waitBefore.Found = true
+			}
+		}
+		// every listed job is marked canceled in the purge loop (the store may sit in a helper that is handed the listed job)
 		marked := false
-		for _, f := range region {
+		for _, f := range append([]*ssa.Function{gate}, ro.helpersOf(gate)...) {
 			for _, st := range ro.storesTo(f, "PipelineJob.Canceled", func(s *ssa.Store) bool { return isBoolConst(s.Val, true) }) {
 				if strings.HasPrefix(w.apAddr(st.Addr), "rangeval(recv.waitListByPipeline)[") {
 					marked = true
+				}
+				if f != gate {
+					if fa, ok := w.resolveAddr(st.Addr).(*ssa.FieldAddr); ok {
+						if prm, ok := w.Resolve(fa.X).(*ssa.Parameter); ok {
+							for _, ci := range findCalls(gate, func(_ string, c *ssa.CallCommon) bool { return c.StaticCallee() == f }) {
+								if pi := paramIdxOf(prm); pi < len(ci.Common().Args) && strings.HasPrefix(w.AP(ci.Common().Args[pi]), "rangeval(recv.waitListByPipeline)[") {
+									marked = true
+								}
+							}
+						}
+					}
 				}
 			}
 		}
@@ -412,10 +448,13 @@ func persistCoverage(w *World, r *Report, ro *Roles) {
 		return false, nil, PathResult{}
 	}
 	n := 0
+	var entries []*ssa.Function
+	lifted, seenEntry := map[*ssa.Function]bool{}, map[*ssa.Function]bool{}
 	for _, fn := range ro.rootFuncs() {
 		if !ro.la.locksMx(fn) || fn == ro.Save {
 			continue
 		}
+		seenEntry[fn] = true
 		// only write-locking functions
 		writeLocks := false
 		allInstrs(fn, func(in ssa.Instruction) {
@@ -424,6 +463,50 @@ func persistCoverage(w *World, r *Report, ro *Roles) {
 			}
 		})
 		if !writeLocks {
+			continue
+		}
+		entries = append(entries, fn)
+	}
+	// an unexported helper with its own lock region is judged in its callers (a call that leaves
+	// persisted state dirty is a point of the caller): the operation as a whole must request the save
+	for i := 0; i < len(entries); i++ {
+		fn := entries[i]
+		if fn.Object() != nil && !fn.Object().Exported() {
+			var callers []*ssa.Function
+			asValue := false
+			for _, g := range w.ModFuncs {
+				allInstrs(g, func(in ssa.Instruction) {
+					if c := callCommonOf(in); c != nil {
+						if c.StaticCallee() == fn && (len(callers) == 0 || callers[len(callers)-1] != g) {
+							callers = append(callers, g)
+						}
+						for _, a := range c.Args {
+							if funcValue(a) == fn {
+								asValue = true
+							}
+						}
+						if _, isGo := in.(*ssa.Go); isGo && c.StaticCallee() == fn {
+							asValue = true
+						}
+					}
+					if mc, ok := in.(*ssa.MakeClosure); ok && mc.Fn == ssa.Value(fn) {
+						asValue = true
+					}
+				})
+			}
+			if !asValue && len(callers) > 0 && len(entries) < 200 {
+				lifted[fn] = true
+				for _, c := range callers {
+					if !seenEntry[c] && c != ro.Save {
+						seenEntry[c] = true
+						entries = append(entries, c)
+					}
+				}
+			}
+		}
+	}
+	for _, fn := range entries {
+		if lifted[fn] {
 			continue
 		}
 		n++
